@@ -61,6 +61,15 @@ def kern_pairs(rnd, size):
     byleft = {}
     for a, b, v1, v2 in pairs:
         byleft.setdefault(a, []).append(b)
+    # runs in which the second glyph of one pair is the first glyph of the next one (a second
+    # value record consumes it), and runs of repeated glyphs
+    for a, b, v1, v2 in rnd.sample(pairs, min(len(pairs), 400 if size else 120)):
+        if b in byleft:
+            c = rnd.choice(byleft[b])
+            texts.append([a, b, c])
+            texts.append([a, b, c, a, b])
+        texts.append([a, b, a, b])
+        texts.append([a, a, b, b])
     lefts = sorted(byleft)
     for a in lefts[:3] + lefts[-3:] + lefts[len(lefts) // 2 - 2:len(lefts) // 2 + 2] + lefts[len(lefts) // 4 - 1:len(lefts) // 4 + 1]:
         bs = sorted(byleft[a])
@@ -133,6 +142,51 @@ def class_kern(rnd, size, shadow=True):
     for _ in range(400):
         texts.append([rnd.choice(order[1:]), rnd.choice(order[1:])])
         texts.append([rnd.choice(order[1:half]), rnd.choice(order[half:]), rnd.choice(order[1:half]), rnd.choice(order[half:])])
+    return m, texts
+
+
+def class_kern_v2(rnd, size):
+    """Class kerning that also adjusts the SECOND glyph (ValueFormat2 != 0) in some blocks of
+    the class matrix while whole blocks of rows have no second value at all.  First and second
+    classes are two independent partitions of the same glyphs, so in a run of three or more
+    glyphs the second glyph of one pair is (or, because a non-empty ValueFormat2 consumes it,
+    is not) the first glyph of the next pair.  Probed with runs of repeated glyphs."""
+    n = 120
+    order = names(n)
+    pool = order[1:61]
+    lefts = _partition(rnd, pool, 14, 3)
+    rights = _partition(rnd, pool, 14, 3)
+    nb = 3
+    st = []
+    for bi in range(nb):
+        ls, rs = lefts[bi::nb], rights[bi::nb] + rights[(bi + 1) % nb::nb][:1]
+        with_v2 = bi != 1          # block 1: rows whose second values are all absent
+        for l in ls:
+            for r in rs:
+                q = rnd.random()
+                if q < 0.25:
+                    continue
+                v2 = None
+                if with_v2 and q < 0.7:
+                    v2 = (rnd.choice([0, 0, _nz(rnd, -40, 40)]), 0, _nz(rnd, -90, 90), 0)
+                st.append((l, r, (0, 0, _nz(rnd), 0), v2))
+    m = _model(n, gpos=[{"kind": "ppos", "flag": {}, "pairs": [], "classes": [st]}])
+    covered = sorted({g for l in lefts for g in l}, key=order.index)
+    both = [g for g in covered if any(g in r for r in rights)] or covered
+    texts = []
+    for g in both[:30]:
+        texts.append([g, g, g])
+        texts.append([g, g, g, g])
+        h = rnd.choice(both)
+        texts.append([g, h, g, h, g])
+        texts.append([h, g, g, h])
+    for l, r, v1, v2 in rnd.sample(st, min(len(st), 120)):
+        a, b = rnd.choice(l), rnd.choice(r)
+        texts.append([a, b])
+        texts.append([a, b, rnd.choice(both)])
+        texts.append([rnd.choice(both), a, b, a, b])
+    for _ in range(300):
+        texts.append([rnd.choice(pool + order[61:64]) for _i in range(rnd.randrange(3, 8))])
     return m, texts
 
 
@@ -585,7 +639,7 @@ def huge_marklig(rnd, size):
 SPECS = {
     "kern_pairs": kern_pairs, "class_kern": class_kern, "zero_row_shadow": zero_row_shadow, "ligatures": ligatures,
     "multiple": multiple, "alternate": alternate, "markbase": markbase, "singlepos": singlepos,
-    "many_lookups": many_lookups, "mixed": mixed, "class0_column": class0_column, "permuted": permuted, "devices": devices, "varkern": varkern,
+    "many_lookups": many_lookups, "mixed": mixed, "class0_column": class0_column, "permuted": permuted, "devices": devices, "varkern": varkern, "class_kern_v2": class_kern_v2,
 }
 UNPACKABLE = {"huge_ligature_set": huge_ligature_set, "huge_chain_format3": huge_chain_format3, "huge_marklig": huge_marklig}
 LEVEL_OF = {
